@@ -84,6 +84,31 @@ def _hist_task(task):
         shutil.rmtree(cwd, ignore_errors=True)
 
 
+def _settings_task(_):
+    """parse_from_file with a caller-owned parser_settings dict, called twice: the dict is untouched and the second call does what the first did"""
+    lib = C._import_lib()
+    root = tempfile.mkdtemp(prefix="verif_c14_ps_")
+    probs = []
+    try:
+        src = os.path.join(root, "a.sql")
+        for text, st in (("CREATE TABLE a (id int);\nCREATE TABLE b (id int, PRIMARY);\nCREATE TABLE c (id int);\n", {"silent": False}),
+                         ('CREATE TABLE "A" ("Id" int);\nSELECT 1;\n', {"silent": True, "normalize_names": True}),
+                         ("CREATE TABLE a (id int); -- c\n", {"normalize_names": False, "silent": False, "debug": False})):
+            with open(src, "w") as f:
+                f.write(text)
+            before = copy.deepcopy(st)
+            outs = [L.outcome(lambda: lib.parse_from_file(src, parser_settings=st)) for _ in range(2)]
+            if st != before:
+                probs.append({"problem": "parse_from_file modified its parser_settings argument", "before": before, "after": st})
+            if C.jnorm(outs[0]) != C.jnorm(outs[1]):
+                probs.append({"problem": "the second parse_from_file call with the same arguments did something else", "settings": before,
+                              "first": c15._short(outs[0]), "second": c15._short(outs[1])})
+    finally:
+        import shutil
+        shutil.rmtree(root, ignore_errors=True)
+    return probs
+
+
 def _fs_task(task):
     """calls that do not request a dump, with and without a dump_path (missing / nested / existing): nothing may appear on disk"""
     how, dump_path_kind = task
@@ -314,6 +339,8 @@ def run(tier, seed):
         if pr:
             V.mismatch(dict(pr, input="in/a.sql"), paths=["file_system"])
     cov["no_dump_file_system_cases"] = len(fst)
+    for pr in C.pool().map(_settings_task, [0], 1)[0]:
+        V.mismatch(pr, paths=["arguments"])
     # ---- the end-to-end composition (spec/System.tla): run() twice on the same object, every script of <= 2 statements, all flags
     from .. import sys_check as SY
     sc, ss, st, sn = SY.leg(V, tier, seed, "C14: run() twice, <=2 statements of 15 kinds, silent and raising, flat and grouped", SY.ALL_KINDS, MaxStmts=2 if tier == "quick" else 3,
